@@ -110,9 +110,20 @@ CHECKS = {
         "note": "Trusted: Coq kernel, extraction, harness; libm sin/cos; the rounding error bound of the implementation is stated, not proved; rayon's contract.",
         "technique": "Coq proof (ring identities, nsatz for the rotation isometries over Q) + differential correspondence on exactly representable inputs",
     },
+    "C14": {
+        "text": "Theorems over exact rationals: squared distance symmetric, non-negative, zero on the diagonal; the wrapped squared distance of two atoms "
+                "inside an orthogonal cell is below every one of the 27 image distances and equal to one of them (per-axis case analysis, linear arithmetic); "
+                "the bounding-box fold returns bounds that contain every coordinate and are attained; chains_in_contact is exactly 'differently named chains "
+                "with an atom pair closer than the cut-off' and symmetric; the tree queries equal the brute-force scan under rstar's stated contract. "
+                "The Rust functions are tied to the model on grid coordinates where binary64 arithmetic is exact, radii from the regenerated element table.",
+        "design_ref": "DESIGN.md section 6 C14",
+        "note": "Trusted: Coq kernel, T2c, extraction, harness; rstar internals (contract as section hypotheses); IEEE sqrt; distances on query "
+                "boundaries are not generated.",
+        "technique": "Coq proof (linear/nonlinear arithmetic over Q, list folds) + differential correspondence on exactly representable coordinates",
+    },
 }
 
 NOT_APPLICABLE = [
     {"property_id": p, "reason": PENDING}
-    for p in ["C01", "C02", "C03", "C04", "C05", "C06", "C14", "C15", "C16"]
+    for p in ["C01", "C02", "C03", "C04", "C05", "C06", "C15", "C16"]
 ]
